@@ -256,7 +256,7 @@ type EntryResult struct {
 	PassModels   [][]interp.SymVar
 }
 
-func explore(ws []*workerProc, e *Entry, tc TierCfg) (*EntryResult, error) {
+func explore(ws []*workerProc, e *Entry, tc TierCfg, classify func(interp.Violation) string) (*EntryResult, error) {
 	res := &EntryResult{Entry: e, Inconclusive: map[string]int{}, Reach: map[string]int{}}
 	t0 := time.Now()
 	for _, w := range ws {
@@ -355,10 +355,11 @@ func explore(ws []*workerProc, e *Entry, tc TierCfg) (*EntryResult, error) {
 					res.PanicPaths++
 				}
 				for _, v := range pr.Violations {
-					k := v.Kind + "|" + v.Msg
+					kd := classify(v)
+					k := v.Kind + "|" + v.Msg + "|" + kd
 					violSeen[k]++
 					lim := 3
-					if v.Kind == "steps" {
+					if v.Kind == "steps" || kd != "" {
 						lim = 1
 					}
 					if violSeen[k] <= lim {
@@ -368,7 +369,7 @@ func explore(ws []*workerProc, e *Entry, tc TierCfg) (*EntryResult, error) {
 					// prefer the simplest witnesses of a class: fewest fault/flag bits set
 					worst, wi := -1, -1
 					for i, o := range res.Violations {
-						if o.Kind+"|"+o.Msg == k {
+						if o.Kind+"|"+o.Msg+"|"+classify(o) == k {
 							if c := oneBits(o.Model); c > worst {
 								worst, wi = c, i
 							}
@@ -512,6 +513,9 @@ func runReplay(bin, dir string, c replayCase, timeoutS int, scratch string, para
 		return replayOutcome{Status: "timeout", Output: string(out)}
 	}
 	so := string(out)
+	if strings.Contains(so, "REPLAY-ERROR:") {
+		return replayOutcome{Status: "unreplayable", Output: tail(so)}
+	}
 	if strings.Contains(so, "test timed out") {
 		return replayOutcome{Status: "timeout", Output: tail(so)}
 	}
@@ -724,7 +728,12 @@ func runMain(args []string) int {
 		if n > len(ws) {
 			n = len(ws)
 		}
-		r, err := explore(ws[:n], e, tc)
+		r, err := explore(ws[:n], e, tc, func(v interp.Violation) string {
+			if k := matchKnown(known, *prop, e.Name, v); k != nil {
+				return k.Desc
+			}
+			return ""
+		})
 		if err != nil {
 			fmt.Printf("ERROR: entry %s: %v\n", e.Name, err)
 			infra = true
@@ -844,7 +853,7 @@ func runMain(args []string) int {
 			switch {
 			case oc.Status == "unreplayable":
 				nUnreplayable++
-				fmt.Printf("UNREPLAYABLE property=%s entry=%s %s: %s model=%s\n", *prop, e.Name, v.Kind, v.Msg, modelString(v.Model))
+				fmt.Printf("UNREPLAYABLE property=%s entry=%s %s: %s model=%s (the scenario cannot be produced natively; not reported as a violation)\n%s\n", *prop, e.Name, v.Kind, v.Msg, modelString(v.Model), oc.Output)
 				infra = true
 			case !reproduced:
 				nDisagree++
